@@ -24,6 +24,7 @@ func init() {
 			{ID: "C03.R3", Text: "filters: IsMetadata ⇔ key has one of the two reserved prefixes (C14.R2); isBeforeSkipWindow ⇔ SkipUntil≠nil ∧ SkipUntil.After(eventTime); convertToCollectionName returns the configured entry or \"_default\"", Run: c03r3},
 			{ID: "C03.R4", Text: "wrapper literals embed the handler's own event copy; Offset.SeqNo/CollectionName/EventTime derive from that event; no field of a gocbcore event or of an offset is written in place", Run: c03r4},
 			{ID: "C03.R5", Text: "types emitted by the observer = listener type-switch arms ∪ {gocbcore.DcpSnapshotMarker, gocbcore.DcpOSOSnapshot}", Run: c03r5},
+			{ID: "C03.R7", Text: "the rollback filter removes exactly the events at or below the position already reached: skip ⇔ need ∧ seq ≤ F, and the first event at or beyond F ends the catch-up without being swallowed unless it is F itself (same rule as C08.R5)", Run: c08r5},
 			{ID: "C03.R6", Text: "the delivery switch is thrown only by the stream's close: observer.closed is written only by Observer.Close, which is called only from Stream.Close (a reopened stream reuses its observer)", Run: switchOwner},
 		},
 	})
@@ -440,6 +441,41 @@ func c03r4(c *Ctx, id string) {
 	if n < 10 {
 		c.Undecided(id, "floor", 0, "only %d wrapper literals found in the handlers (10 confirmed by hand)", n)
 	}
+	// no event is made up: outside the handler of its own kind nobody builds an event wrapper (a synthetic
+	// seqno-advanced, say, would move the position over events the server never reported as settled)
+	isHandler := map[*ssa.Function]bool{}
+	for _, h := range oi.handlers {
+		isHandler[h] = true
+	}
+	for _, fn := range w.ModFuncs {
+		if isHandler[rootFn(fn)] {
+			continue
+		}
+		allInstrs(fn, func(in ssa.Instruction) {
+			a, ok := in.(*ssa.Alloc)
+			if !ok {
+				return
+			}
+			if kind := embeddedGocbEvent(a.Type().(*types.Pointer).Elem()); kind != "" {
+				// a helper that only wraps what a handler hands it: the embedded event is (the address of a copy of) its parameter
+				tab, _ := allocTable(a)
+				if len(tab) == 0 {
+					return // a local copy of a received wrapper (type-switch variable), not a literal
+				}
+				if _, isParam := unwrap(tab[kind]).(*ssa.Parameter); isParam && onlyCalledFrom(w, fn, isHandler) {
+					return
+				}
+				if ea := asAlloc(tab[kind]); ea != nil {
+					if sv, ok := singleStore(ea); ok {
+						if _, isParam := sv.(*ssa.Parameter); isParam && onlyCalledFrom(w, fn, isHandler) {
+							return
+						}
+					}
+				}
+				c.Fail(id, "wrapper-outside-handler@"+fname(fn), a.Pos(), "%s builds a %s wrapper from %s: events reach the listener only as the stream-observer handler of that kind received them", fname(fn), kind, w.Origin(tab[kind]))
+			}
+		})
+	}
 	immutableOffsets(c, id)
 }
 
@@ -487,4 +523,18 @@ func c03r5(c *Ctx, id string) {
 		}
 	}
 	c.Floor(id, 9)
+}
+
+// onlyCalledFrom: fn is called (statically) at least once and only from functions of the given set.
+func onlyCalledFrom(w *World, fn *ssa.Function, set map[*ssa.Function]bool) bool {
+	cs := w.callersOf(fn)
+	if len(cs) == 0 || len(w.usesAsValue(fn)) > 0 {
+		return false
+	}
+	for _, s := range cs {
+		if !set[rootFn(s.Fn)] {
+			return false
+		}
+	}
+	return true
 }
